@@ -950,7 +950,7 @@ def _fn_edits(spec, item, src, m, edits, rule_counts, clauses, top):
 
     # --- rules (regex on original text of this fn, outside nested items)
     rule_edits = []
-    for r in spec.rules:
+    for r in list(spec.rules) + FALLBACK_RULES:
         cnt = 0
         if getattr(r, "custom", None):
             ces = r.custom(src, m, item, in_skip)
@@ -982,6 +982,13 @@ def _fn_edits(spec, item, src, m, edits, rule_counts, clauses, top):
         else:
             keep.append(e)
     edits.extend(keep)
+
+
+# applied to every extracted function after the unit's own rules
+FALLBACK_RULES = [Rule("D49", r"\|_\|\s*(((?:[a-z_][a-z0-9_]*::)*[A-Z]\w*)::[A-Z]\w*)\s*(?=[,)])",
+                       r"|_ign__| -> (r__: \2) ensures r__ == \1 { \1 }",
+                       "`|_| Enum::Variant` (a closure returning one constant variant): parameter named and the closure annotated with its own body; "
+                       "this Verus accepts only variables as closure parameters and treats an un-annotated closure as opaque")]
 
 
 class Unit:
